@@ -201,15 +201,25 @@ def _material(draw, tier, mu_tier, lossy):
     return m
 
 
+def _rot(ctx, salt):
+    """Worker-dependent rotation of a few top-level choices: Hypothesis always starts with the all-minimal example,
+    which would otherwise be the same scene in every worker process (seed, shard and lane are fixed per worker)."""
+    return (getattr(ctx, "seed", 0) * 7 + getattr(ctx, "shard", 0) * 3 + (1 if ctx.lane == "f32" else 0)) * salt
+
+
 @st.composite
 def case_strategy(draw, ctx):
-    flavour = draw(st.sampled_from(["plane_pml"] * 4 + ["tensor"] * 4 + ["free"] * 2))
+    def pick(options, salt):
+        return options[(draw(st.integers(0, len(options) - 1)) + _rot(ctx, salt)) % len(options)]
+
+    flavour = pick(["plane_pml", "tensor"] * 4 + ["free"] * 2, 1)
     want_plane = flavour == "plane_pml" or (flavour != "tensor" and draw(st.booleans())) or (
         flavour == "tensor" and draw(st.integers(0, 3)) == 0)
     # ---- boundaries and shape -------------------------------------------------------------------
     # Every scene is dense in axis-specific code paths: the three axes get three different roles (in random
     # assignment): a periodic/Bloch pair, a PML-backed axis, and an axis closed by walls / zero halo.
-    roles = draw(st.permutations(["pair", "absorb", "walls"]))
+    roles = list(pick([["pair", "absorb", "walls"], ["absorb", "walls", "pair"], ["walls", "pair", "absorb"],
+                       ["pair", "walls", "absorb"], ["walls", "absorb", "pair"], ["absorb", "pair", "walls"]], 1))
     if draw(st.integers(0, 4)) == 0:  # sometimes no periodic axis at all
         roles = [r if r != "pair" else draw(st.sampled_from(["absorb", "walls"])) for r in roles]
     faces = {}
@@ -332,14 +342,14 @@ def case_strategy(draw, ctx):
             "detectors": detectors}
     if has_bloch:
         spec["bloch_phase"] = [draw(st.sampled_from([0.7, 1.9, -2.4, 3.14159, 0.7, -1.1, 0.0])) for _ in range(3)]
-    mode = draw(st.sampled_from(["stepped", "stepped", "run_fdtd"]))
+    mode = pick(["stepped", "run_fdtd", "stepped"], 1)
     if mode == "run_fdtd":  # zero initial fields: make sure the first source actually radiates
         sources[0]["switch"] = {}
         if sources[0]["profile"]["kind"] == "custom":
             sources[0]["profile"] = {"kind": "cw"}
         if sources[0]["type"] in ("dipole_e", "dipole_m"):
             sources[0]["amp"] = abs(sources[0]["amp"])
-    return {"scene": spec, "mode": mode, "field_seed": draw(st.integers(0, 2**31 - 1)),
+    return {"scene": spec, "mode": mode, "field_seed": draw(st.integers(0, 2**31 - 1)) + _rot(ctx, 1),
             "percell_seed": draw(st.one_of(st.none(), st.integers(0, 2**31 - 1))),
             "dense": draw(st.sampled_from([1.0, 1.0, 0.1]))}
 
@@ -509,7 +519,7 @@ def _normalise(spec):
 
 
 SUBS = [
-    Sub(name="orientations", body=body, strategy=lambda ctx: case_strategy(ctx), quick=5, thorough=400,
+    Sub(name="orientations", body=body, strategy=lambda ctx: case_strategy(ctx), quick=5, thorough=320,
         lanes=("f64", "f32"), f32_fraction=0.25, quick_shards=2, max_seconds_quick=600.0,
         rule="three cyclic orientations of a random scene; fields and raw detector records permute"),
 ]
